@@ -33,6 +33,7 @@ import importlib
 import inspect
 import json
 import os
+import re
 import sys
 import types
 import typing as t
@@ -508,24 +509,99 @@ def target_param(sig: inspect.Signature, pp: t.Dict[str, t.Any]) -> t.Optional[i
     return None
 
 
-def build_call(F: types.ModuleType, fname: str, sig: inspect.Signature, tgt: inspect.Parameter, sub: int, value: t.Any, variant: str) -> t.Tuple[list, dict]:
+VARIANTS_BASE = ("min", "full")
+# what the OTHER arguments are, beyond the typed dummy values of min/full (PySpark documents each kind):
+#   names  every other ColumnOrName position is given by name ('d<k>')
+#   cols   every other ColumnOrName position is given as a Column (also where the typed dummy is an int)
+#   nums   every other position that PySpark annotates `Union[ColumnOrName, int|float]` is given as a Python number
+#   drop:<p>  every parameter except the optional parameter <p> (explicitly left at its default, e.g. None)
+VARIANTS_OTHER = ("names", "cols", "nums")
+
+
+def py_param_of(fname: str, sig: inspect.Signature, p: inspect.Parameter, positions: t.Dict[str, t.Any]) -> t.Optional[dict]:
+    """PySpark's parameter corresponding to sqlframe's parameter `p` (same name, else same index)"""
+    pps = positions.get(fname, {}).get("params", [])
+    for pp in pps:
+        if pp["name"] == p.name:
+            return pp
+    params = [q for q in sig.parameters.values() if q.kind in (inspect.Parameter.POSITIONAL_ONLY, inspect.Parameter.POSITIONAL_OR_KEYWORD)]
+    if p in params:
+        i = params.index(p)
+        for pp in pps:
+            if pp["kind"] == "pos" and pp["index"] == i:
+                return pp
+    if p.kind is inspect.Parameter.VAR_POSITIONAL:
+        for pp in pps:
+            if pp["kind"] == "vararg":
+                return pp
+    return None
+
+
+def _is_colname(pp: t.Optional[dict]) -> bool:
+    return bool(pp and pp.get("colname") and pp.get("jvm") != "literal")
+
+
+def other_value(F: types.ModuleType, fname: str, p: inspect.Parameter, i: int, variant: str, pp: t.Optional[dict]) -> t.Any:
+    """the value of a non-target parameter under an argument variant"""
+    base = dummy_for(F, fname, p, i)
+    if variant in ("min", "full") or variant.startswith("drop:") or not _is_colname(pp):
+        return base
+    ann = pp["annotation"] if pp else ""
+    if variant == "names":
+        return f"d{i}"
+    if variant == "cols":
+        return F.col(f"d{i}")
+    if variant == "nums":
+        if re.search(r"\bint\b", ann):
+            return base if (isinstance(base, int) and not isinstance(base, bool)) else 2
+        if re.search(r"\bfloat\b", ann):
+            return base if isinstance(base, float) else 0.5
+    return base
+
+
+def _sibling(F: types.ModuleType, k: int, variant: str) -> t.Any:
+    """another element of the same *cols"""
+    return f"d{k}" if variant == "names" else F.col(f"d{k}")
+
+
+def build_call(
+    F: types.ModuleType, fname: str, sig: inspect.Signature, tgt: inspect.Parameter, sub: int, value: t.Any, variant: str,
+    positions: t.Optional[t.Dict[str, t.Any]] = None,
+) -> t.Tuple[list, dict]:
     """arguments for f with `value` at the target position; other arguments are typed dummies.
-    variant 'min': only what is required (+ everything positional before the target); 'full': every parameter."""
+    variant 'min': only what is required (+ everything positional before the target); 'full': every parameter;
+    'names' / 'cols' / 'nums' / 'drop:<p>': as 'full' with the other arguments varied (see VARIANTS_OTHER).
+    For a *cols target, `sub` says where the value goes: 0 first element, 1 a later element, 2 / 3 the same inside ONE
+    list argument (PySpark: `f([a, b])` is `f(a, b)` where the annotation allows a list)."""
+    positions = positions if positions is not None else load_positions()
     args: list = []
     kwargs: dict = {}
     params = list(sig.parameters.values())
     ti = params.index(tgt)
+    dropped = variant[5:] if variant.startswith("drop:") else None
+    everything = variant != "min"
+    pp_t = py_param_of(fname, sig, tgt, positions)
+    vararg_view = tgt.kind is inspect.Parameter.VAR_POSITIONAL and bool(pp_t) and pp_t["kind"] == "vararg"
     for i, p in enumerate(params):
         if p.kind is inspect.Parameter.VAR_KEYWORD:
             continue
         if p.kind is inspect.Parameter.VAR_POSITIONAL:
             if p is tgt:
-                elems = [F.col("d90"), F.col("d91")] if sub > 0 or variant == "full" else [F.col("d90")]
-                elems[min(sub, len(elems) - 1)] = value
-                args.extend(elems)
-            elif variant == "full" or fname in VARARG_REQUIRED:
+                lsub = sub % 2
+                elems = [_sibling(F, 90, variant), _sibling(F, 91, variant)] if lsub > 0 or everything else [_sibling(F, 90, variant)]
+                elems[min(lsub, len(elems) - 1)] = value
+                if vararg_view:
+                    # PySpark's view of the call: the elements of *cols start at PySpark's index of the vararg; sqlframe's
+                    # fixed parameters from there on (e.g. struct(col, *cols)) are elements of it
+                    first = pp_t["index"] or 0
+                    del args[first:]
+                if sub >= 2:
+                    args.append(list(elems))
+                else:
+                    args.extend(elems)
+            elif everything or fname in VARARG_REQUIRED:
                 if "ColumnOrName" in str(p.annotation) or "Column" in str(p.annotation) or p.annotation is inspect.Parameter.empty:
-                    args.extend([F.col("d92"), F.col("d93")])
+                    args.extend([_sibling(F, 92, variant), _sibling(F, 93, variant)])
                 elif "str" in str(p.annotation):
                     args.extend(["s1", "s2"])
                 else:
@@ -533,22 +609,76 @@ def build_call(F: types.ModuleType, fname: str, sig: inspect.Signature, tgt: ins
             continue
         if p is tgt:
             v = value
-        elif p.default is inspect.Parameter.empty or variant == "full" or (i < ti and p.kind is not inspect.Parameter.KEYWORD_ONLY):
-            v = dummy_for(F, fname, p, i)
+        elif p.name == dropped:
+            continue
+        elif p.default is inspect.Parameter.empty or everything or (i < ti and p.kind is not inspect.Parameter.KEYWORD_ONLY):
+            v = other_value(F, fname, p, i, variant, py_param_of(fname, sig, p, positions))
         else:
             continue
         if p.kind is inspect.Parameter.KEYWORD_ONLY or (i > ti and p.kind is inspect.Parameter.POSITIONAL_OR_KEYWORD and not any(q.kind is inspect.Parameter.VAR_POSITIONAL for q in params[: i + 1])):
             kwargs[p.name] = v
+        elif dropped is not None and any(q.name == dropped for q in params[:i]) and p.kind is inspect.Parameter.POSITIONAL_OR_KEYWORD and not any(q.kind is inspect.Parameter.VAR_POSITIONAL for q in params):
+            kwargs[p.name] = v  # a positional parameter after the dropped one
         else:
             args.append(v)
     return args, kwargs
 
 
+def _arg_key(x: t.Any) -> str:
+    if callable(x) and not isinstance(x, type):
+        return "<fn>"
+    if isinstance(x, (list, tuple)):
+        return "[" + ",".join(_arg_key(y) for y in x) + "]"
+    return f"{type(x).__name__}:{x!r}"
+
+
+_VARIANTS_CACHE: t.Dict[t.Tuple, t.List[str]] = {}
+
+
+def variants_for(F: types.ModuleType, cell: t.Dict[str, t.Any], positions: t.Optional[t.Dict[str, t.Any]] = None) -> t.List[str]:
+    """the argument variants of a cell that give DIFFERENT calls (duplicates of an earlier variant are dropped)"""
+    key = (F.__name__, cell["f"], cell["tgt"], cell["sub"])
+    if key in _VARIANTS_CACHE:
+        return _VARIANTS_CACHE[key]
+    positions = positions if positions is not None else load_positions()
+    f = getattr(F, cell["f"])
+    sig = inspect.signature(f)
+    tgt = sig.parameters[cell["tgt"]]
+    names = list(VARIANTS_BASE) + list(VARIANTS_OTHER)
+    optional = [p.name for p in sig.parameters.values() if p is not tgt and p.default is not inspect.Parameter.empty and p.kind in (inspect.Parameter.POSITIONAL_OR_KEYWORD, inspect.Parameter.KEYWORD_ONLY)]
+    if len(optional) >= 2 and not any(p.kind is inspect.Parameter.VAR_POSITIONAL for p in sig.parameters.values()):
+        names += [f"drop:{n}" for n in optional]
+    out, seen = [], set()
+    for v in names:
+        try:
+            a, k = build_call(F, cell["f"], sig, tgt, cell["sub"], "<target>", v, positions)
+        except Exception:  # noqa
+            continue
+        sig_key = _arg_key(a) + "|" + ",".join(f"{n}={_arg_key(x)}" for n, x in sorted(k.items()))
+        if sig_key in seen:
+            continue
+        seen.add(sig_key)
+        out.append(v)
+    _VARIANTS_CACHE[key] = out
+    return out
+
+
 VARARG_REQUIRED = {"greatest", "least", "coalesce", "concat", "concat_ws", "array", "struct", "create_map", "map_concat", "hash", "xxhash64", "named_struct", "json_tuple", "stack", "format_string", "printf", "elt", "arrays_zip", "array_union", "count_distinct", "countDistinct", "grouping_id", "call_function", "call_udf", "java_method", "reflect", "try_reflect"}
 
 
+_POSITIONS: t.Optional[t.Dict[str, t.Any]] = None
+
+
 def load_positions() -> t.Dict[str, t.Any]:
-    return json.load(open(ORACLE))["functions"]
+    global _POSITIONS
+    if _POSITIONS is None:
+        _POSITIONS = json.load(open(ORACLE))["functions"]
+    return _POSITIONS
+
+
+def accepts_list(pp: t.Dict[str, t.Any]) -> bool:
+    """PySpark documents `f([a, b])` for this *cols (annotation `Union[ColumnOrName, List[ColumnOrName], ...]`)"""
+    return pp.get("kind") == "vararg" and "List[" in (pp.get("annotation") or "")
 
 
 def cells_for(engine: str, positions: t.Optional[t.Dict[str, t.Any]] = None) -> t.List[Cell]:
@@ -570,6 +700,8 @@ def cells_for(engine: str, positions: t.Optional[t.Dict[str, t.Any]] = None) -> 
                 out.append({"f": fname, "e": engine, "pos": pp["index"] if pp["index"] is not None else 99, "sub": 0, "pname": pp["name"], "tgt": None})
                 continue
             subs = [0, 1] if tgt.kind is inspect.Parameter.VAR_POSITIONAL and pp["kind"] == "vararg" else [0]
+            if subs == [0, 1] and accepts_list(pp):
+                subs = [0, 1, 2, 3]  # 2 / 3: the same two places inside ONE list argument
             for sub in subs:
                 out.append({"f": fname, "e": engine, "pos": pp["index"] if pp["index"] is not None else 99, "sub": sub, "pname": pp["name"], "tgt": tgt.name})
     return out
@@ -583,20 +715,27 @@ def call_cell(F: types.ModuleType, cell: Cell, value: t.Any, variant: str) -> t.
     return f(*args, **kwargs)
 
 
+def reference_cell(cell: Cell) -> Cell:
+    """the call whose Column form is the reference: for a list form (`sub` 2 / 3) PySpark's meaning is the varargs call"""
+    return dict(cell, sub=cell["sub"] - 2) if cell["sub"] >= 2 else cell
+
+
 def trace_cell(F: types.ModuleType, cell: Cell) -> t.Dict[str, t.Any]:
     """coercion met by a traced name in this cell, worst over the argument variants.
     A variant whose call fails even with `col(name)` in that position says nothing about the string and is
-    skipped; a cell with no usable variant is reported as `unevaluable` (kept out of the Lean table)."""
+    skipped; a cell with no usable variant is reported as `unevaluable` (kept out of the Lean table).
+    For a list form the reference is the varargs call with `col(name)`."""
     if cell["tgt"] is None:
         return {"coercion": "none", "detail": "sqlframe's signature has no parameter at this position"}
     order = ["none", "text", "literal", "parsed", "ensureCol"]  # worst first
     worst = None
     details = []
-    for variant in ("min", "full"):
+    ref = reference_cell(cell)
+    for variant in variants_for(F, cell):
         try:
             with warnings.catch_warnings():
                 warnings.simplefilter("ignore")
-                call_cell(F, cell, F.col(TRACER_TEXT), variant)
+                call_cell(F, ref, F.col(TRACER_TEXT), variant)
         except Exception as e:  # noqa
             details.append({"variant": variant, "skipped": f"the Column form fails too: {type(e).__name__}: {str(e)[:100]}"})
             continue
@@ -633,11 +772,15 @@ def trace_engine(engine: str, positions: t.Optional[t.Dict[str, t.Any]] = None) 
     return rows
 
 
-def trace_all(keep_unevaluable: bool = False) -> t.List[Cell]:
-    positions = load_positions()
-    rows: t.List[Cell] = []
-    for e in ENGINES:
-        rows.extend(trace_engine(e, positions))
+def trace_all(keep_unevaluable: bool = False, rows: t.Optional[t.List[Cell]] = None) -> t.List[Cell]:
+    """trace every engine (or take the rows traced elsewhere, e.g. one engine per worker process)"""
+    if rows is None:
+        positions = load_positions()
+        rows = []
+        for e in ENGINES:
+            rows.extend(trace_engine(e, positions))
+    order = {e: i for i, e in enumerate(ENGINES)}
+    rows = sorted(rows, key=lambda r: order[r["e"]])  # stable: the order of cells_for inside an engine is kept
     global UNEVALUABLE
     UNEVALUABLE = [r for r in rows if r["coercion"] == "unevaluable"]
     return rows if keep_unevaluable else [r for r in rows if r["coercion"] != "unevaluable"]
@@ -658,8 +801,9 @@ def render_lean(rows: t.List[Cell], static_text: str, origin: str) -> str:
     return static_text.rstrip("\n") + "\n\n" + gen_c16._render_table(rows, origin)
 
 
-def generate(repo: str, outdir: t.Optional[str], json_out: t.Optional[str] = None) -> t.Tuple[str, t.List[Cell]]:
-    """trace the working tree and write Gen/Functions.lean (unless outdir is None); returns (text, rows)"""
+def generate(repo: str, outdir: t.Optional[str], json_out: t.Optional[str] = None, traced_rows: t.Optional[t.List[Cell]] = None) -> t.Tuple[str, t.List[Cell]]:
+    """trace the working tree (or take `traced_rows`, traced per engine in worker processes) and write
+    Gen/Functions.lean (unless outdir is None); returns (text, rows)"""
     global REPO
     REPO = repo
     install_stubs(repo)
@@ -667,7 +811,7 @@ def generate(repo: str, outdir: t.Optional[str], json_out: t.Optional[str] = Non
     import gen_c16  # type: ignore
 
     static_text = gen_c16.static_part(repo)
-    rows = trace_all()
+    rows = trace_all(rows=traced_rows)
     text = render_lean(rows, static_text, "traced")
     if outdir is not None:
         os.makedirs(outdir, exist_ok=True)
